@@ -1016,5 +1016,8 @@ mod tests {
 
 #[cfg(all(test, lumina_verif))]
 mod verif_native {
-    include!(concat!(env!("LUMINA_VERIF_DIR"), "/native/types/header_findings.rs"));
+    include!(concat!(
+        env!("LUMINA_VERIF_DIR"),
+        "/native/types/header_findings.rs"
+    ));
 }
